@@ -302,6 +302,9 @@ class SnmpSession(object):
         Refresh sent automatically on entering
         the SnmpSession and should be resent manually
         if over 150 seconds left from the last request.
+
+        Raises:
+            TimeoutError: When timed out.
         """
         if (
             not isinstance(self._sock, SnmpV3ClientSocket)
@@ -309,24 +312,27 @@ class SnmpSession(object):
         ):
             return
 
-        if self._deferred_user:
-            # First check runs engine id discovery
-            self._sock.refresh()
-            # Set and localize actual keys
-            self._sock.set_keys(
-                self._deferred_user.name,
-                self._deferred_user.get_auth_alg(),
-                self._deferred_user.get_auth_key(),
-                self._deferred_user.get_priv_alg(),
-                self._deferred_user.get_priv_key(),
-            )
-            # Adjust refresh settings
-            self._to_refresh = self._deferred_user.require_auth()
-            # Forget deferred user
-            self._deferred_user = None
+        try:
+            if self._deferred_user:
+                # First check runs engine id discovery
+                self._sock.refresh()
+                # Set and localize actual keys
+                self._sock.set_keys(
+                    self._deferred_user.name,
+                    self._deferred_user.get_auth_alg(),
+                    self._deferred_user.get_auth_key(),
+                    self._deferred_user.get_priv_alg(),
+                    self._deferred_user.get_priv_key(),
+                )
+                # Adjust refresh settings
+                self._to_refresh = self._deferred_user.require_auth()
+                # Forget deferred user
+                self._deferred_user = None
 
-        # Refresh engine boots and time
-        self._sock.refresh()
+            # Refresh engine boots and time
+            self._sock.refresh()
+        except BlockingIOError as e:
+            raise TimeoutError from e
 
     def get_engine_id(self: "SnmpSession") -> bytes:
         """
